@@ -419,6 +419,8 @@ func (e *Engine) callFn(fr *Frame, instr ssa.Instruction, fn *ssa.Function, args
 		st.comps = out.comps
 		if r != nil && !(fr != nil && fr.clause) {
 			e.callHist["last:"+name] = r
+			e.callHist[fmt.Sprintf("call:%s#%d", name, e.callCount[name])] = r
+			e.callCount[name]++
 		}
 		return r, po
 	}
